@@ -3,6 +3,12 @@
 //! reads / short writes and TCP-like shutdown; `thread` and `sync::mpsc` are shuttle's, so the
 //! interleaving of the real worker threads with the run loop is decided by shuttle's scheduler.
 
+// everything the facade does not substitute is std's
+pub use std::{
+    any, borrow, boxed, cell, char, clone, cmp, collections, convert, default, env, error, fmt, hash, iter, marker, mem, num, ops, option, rc, result, slice,
+    str, string, time, vec,
+};
+
 pub mod io {
     pub use std::io::*;
 }
@@ -12,12 +18,14 @@ pub mod thread {
 }
 
 pub mod sync {
+    pub use shuttle::sync::{atomic, Arc, Condvar, Mutex, MutexGuard, Once, RwLock};
     pub mod mpsc {
         pub use shuttle::sync::mpsc::*;
     }
 }
 
 pub mod net {
+    pub use std::net::{IpAddr, Ipv4Addr, Ipv6Addr, Shutdown, SocketAddr};
     use shuttle::sync::{Arc, Condvar, Mutex};
     use std::collections::VecDeque;
     use std::io::{self, Read, Write};
